@@ -17,6 +17,7 @@ var registerOnceStores = []string{"s2sNonceStore", "useNonceOnceStore"}
 
 func c05(r *Report) {
 	p := r.P
+	defer c05Audit4(r)
 	const iam = "auth/api/iam"
 	r.Explanation = "Static decision of the single-use discipline: (1) the burn-on-read stores (authorization code, OpenID4VP nonce, request object, user redirect token) are read only through the burn primitive GetAndDelete — a plain Get/Exists on them is a violation; (2) the authorization code is deleted by a deferred call registered before every return that follows the presence check, and the token endpoint hands every authorization_code request to that handler (so a failed attempt burns the code); (3) the register-once stores (s2s nonce, DPoP jti) are written without a caller-chosen TTL, and the s2s nonce TTL constant covers validity + clock skew; the functions report success only on the not-seen path; (4) ATOMIC: each check-then-act on these stores — the burn primitive itself (Get followed by Delete) and the two Get→Put registrations — must be a single backend operation or run under a mutex. (4) fails on today's tree by construction of the code; these are recorded as known findings (a repair needs an atomic primitive on every session backend)."
 	r.NotDecided = []string{"behaviour of the Redis/memcached/in-memory backends themselves", "expiry timing"}
